@@ -19,9 +19,51 @@ def run(chk, F):
         "law itself (sum, integrality, sign, bound) is arithmetic over values and is not decided.")
     chk.guard("conformance-gate", "to_list", lambda: c02.to_list_gates(chk, F))
     chk.guard("remainder-threading", "to_list", lambda: threading(chk, F))
+    chk.guard("positional-pairing", "to_list", lambda: pairing(chk, F))
     chk.guard("div_rem-shape", "Numeric::div_rem", lambda: div_rem(chk, F))
     chk.guard("exactness", "to_list", lambda: exact(chk, F))
     chk.guard("duration-breakdown", "eval_query", lambda: duration(chk, F))
+
+
+REORDERING = {"sort", "sort_by", "sort_by_key", "sort_unstable", "sort_unstable_by", "sort_unstable_by_key", "sort_by_cached_key", "reverse", "rev",
+              "rotate_left", "rotate_right", "swap", "swap_remove", "dedup", "dedup_by", "dedup_by_key", "retain", "retain_mut", "remove", "insert",
+              "truncate", "drain", "pop", "split_off", "chain", "filter", "filter_map", "step_by", "take", "take_while", "skip_while", "flat_map",
+              "flatten", "cycle", "last", "nth", "max_by", "min_by", "max_by_key", "min_by_key", "select_nth_unstable", "partition", "extend"}
+
+
+def pairing(chk, F):
+    """The i-th part is computed from the i-th list unit and labelled with the i-th name: names, resolved units and parts
+    are three sequences in the caller's order.  Nothing in to_list may reorder, drop or insert elements, and the final
+    labelling zips the names (the `list` parameter, from its start) with the parts (the vector the loop pushed into)."""
+    fn = F.find(CORE, "runtime::eval::to_list")
+    fk = "rink_core::runtime::eval::to_list"
+    bodies = [fn] + F.closures_of(fn)
+    bad = []
+    for f in bodies:
+        for bb, t in f.calls():
+            if "callee" not in t or t["callee"]["crate"] == CORE:
+                continue
+            last = t["callee"]["path"].split("::")[-1]
+            if last in REORDERING or "BinaryHeap" in t["callee"]["path"] or "BTree" in t["callee"]["path"] or "Hash" in t["callee"]["path"]:
+                bad.append((last, f.where(bb)))
+    chk.decide(not bad, "positional-pairing", fk, "no-reordering", bad[0][1] if bad else fn.where(),
+               "to_list never reorders, drops or inserts elements of the unit list, the resolved units or the parts",
+               "to_list calls %s: the parts are computed from the units in one order and labelled with the names in another" % ", ".join("%s at %s" % b for b in bad))
+    zips = [(bb, t) for bb, t in fn.calls() if "callee" in t and t["callee"]["path"].endswith("Iterator::zip")]
+    if len(zips) != 1:
+        raise AnchorLost("to_list: expected one zip of names and parts, found %d" % len(zips))
+    bb, t = zips[0]
+    a = [ap_str(fn.apath(x)) for x in t["args"]]
+    names_ok = any(x == "core::slice::<impl [T]>::iter(arg3)" for x in a)
+    parts_ok = any(x.endswith("into_iter(alloc::vec::Vec::<T>::new())") or "IntoIterator>::into_iter(" in x and "Vec" in x and "skip" not in x for x in a)
+    chk.decide(names_ok and parts_ok, "positional-pairing", fk, "zip-names-with-parts", fn.where(bb),
+               "the reply zips the caller's names, from the first, with the parts in the order they were computed",
+               "the final zip pairs %s" % [x[:80] for x in a])
+    # the decomposition loop walks the resolved units themselves, from the first (no skip feeding enumerate)
+    enums = [(bb, t) for bb, t in fn.calls() if "callee" in t and t["callee"]["path"].endswith("Iterator::enumerate")]
+    ok = len(enums) == 1 and "skip" not in ap_str(fn.apath(enums[0][1]["args"][0])) and "IntoIterator>::into_iter(" in ap_str(fn.apath(enums[0][1]["args"][0]))
+    chk.decide(ok, "positional-pairing", fk, "loop-over-all-units", fn.where(enums[0][0]) if enums else fn.where(),
+               "the decomposition loop enumerates the resolved units from the first", "the decomposition loop does not enumerate the resolved units themselves")
 
 
 def threading(chk, F):
